@@ -16,7 +16,9 @@ func shapeCases(tier string) []*space.Case {
 	if tier == "thorough" {
 		cs = append(cs, space.F1("X", "my_field")...)
 		cs = append(cs, space.F2(space.Representatives(), false)...)
-		cs = append(cs, space.F3(space.Representatives())...)
+		cs = append(cs, space.F3(space.PairRepresentatives())...)
+		deep := [][2]string{{"string", "single"}, {"string", "repeated"}, {"string", "map"}, {"msgNullable", "single"}, {"msgNonNull", "repeated"}, {"string", "oneof"}, {"msgNullable", "oneof"}, {"customBool", "single"}}
+		cs = append(cs, space.F2(deep, true)...)
 	} else {
 		cs = append(cs, space.F1("X")...)
 		cs = append(cs, space.F2(space.Representatives(), false)...)
@@ -50,8 +52,10 @@ func configuredCases(tier string) []*space.Case {
 				out = append(out, c)
 			}
 		}
-		reps := [][2]string{{"string", "single"}, {"msgNullable", "single"}, {"string", "oneof"}, {"msgNullable", "oneof"}, {"emptyNullable", "single"}, {"string", "repeated"}, {"string", "map"}, {"msgNonNull", "repeated"}, {"customBool", "single"}}
+		reps := [][2]string{{"string", "single"}, {"msgNullable", "single"}, {"string", "oneof"}, {"msgNullable", "oneof"}, {"emptyNullable", "single"}, {"string", "repeated"}, {"string", "map"}, {"msgNonNull", "repeated"}, {"customBool", "single"},
+			{"embedAuthPtr", "single"}, {"embedLimitsPtr", "single"}, {"embedRichVal", "single"}}
 		out = append(out, space.F3(reps)...)
+		out = append(out, space.F2Sample(space.Representatives())...)
 	}
 	sink := space.F4()[0]
 	out = append(out, space.Variant(sink, true, false, "names"), space.Variant(sink, false, false, "typekey-options"))
